@@ -212,6 +212,13 @@ def run(ctx):
     H.calibrate(bindir)
     cases, nsmall, nrand, L = gen_cases(ctx)
     res, viol, ties, stats = check(ctx, bindir, exe, cases)
+    # extraction cross-check: a slice of the batch evaluated by vm_compute inside Coq vs the extracted program
+    if H.LAST_BATCH:
+        nx, xbad = H.crosscheck_last_batch(40 if ctx.quick else 150)
+        ctx.cov["extraction_crosschecked_in_coq"] = nx
+        if xbad:
+            fails.append({"kind": "extraction-crosscheck", "file": "extracted host_run differs from vm_compute of TG.Model.HostInst.run_digests",
+                          "detail": xbad[:3]})
     found = False
     for kind, (c, step, detail) in sorted(viol.items()):
         found = True
